@@ -29,8 +29,10 @@ BASE = [
     ("W", "STOP.M 2.0 : b"),
     ("W", "STEP.M 1.0 : c"),
     ("W", "NULL. -9 : n"),
+    ("W", "COMP.  ACME"),  # a genuine line without a colon: no description field
     ("P", "~Parameter"),
     ("P", "BHT.DEGC 35.5 : t"),
+    ("P", "MUD : GEL"),  # a genuine line without a period: neither unit nor description field
     ("X", "~Xtra"),
     ("X", "KEY. val : k"),
     ("C", "~Curve"),
@@ -41,9 +43,11 @@ BASE = [
     ("A", "2 -9"),
 ]
 # insertion sites: index into BASE *before which* the junk line goes
-SITES = {"V-mid": 2, "V-end": 3, "W-first": 4, "W-end": 8, "P-end": 10, "X-first": 11, "X-end": 12}
+_AT = lambda text: [t for _, t in BASE].index(text)
+SITES = {"V-mid": 2, "V-end": 3, "W-first": 4, "W-end": _AT("~Parameter"), "P-end": _AT("~Xtra"), "X-first": _AT("KEY. val : k"), "X-end": _AT("~Curve"),
+         "W-before-colonless-line": _AT("COMP.  ACME"), "P-before-periodless-line": _AT("MUD : GEL")}
 BOUNDS = {
-    "quick": {"junk_cap": 4, "sites": ["V-end", "W-first", "P-end", "X-end"], "flags": [True, False], "junk_lines": 1, "task_budget_s": 900,
+    "quick": {"junk_cap": 4, "sites": ["V-end", "W-first", "P-end", "X-end", "W-before-colonless-line", "P-before-periodless-line"], "flags": [True, False], "junk_lines": 1, "task_budget_s": 900,
               "alphabet": "printable ASCII", "base_file": [t for _, t in BASE]},
     "thorough": {"junk_cap": 7, "sites": list(SITES), "flags": [True, False], "junk_lines": 1, "task_budget_s": 3400,
                  "alphabet": "printable ASCII", "base_file": [t for _, t in BASE]},
